@@ -6,7 +6,7 @@ const SEEDS = require('../grammar/seeds')
 
 const C02_RULES = new Set(['temp-unused', 'temp-nonlinear', 'temp-order', 'temp-assigned-twice', 'unknown-sequence-tail', 'instrumentation-survives-erasure',
   'guard-operator', 'guard-consequent', 'guard-var-foreign', 'guard-not-on-spine', 'guard-var-multiple', 'kept-ident-before-effect', 'temp-outside-sequence',
-  'hook-shape', 'hook-first-arg-shape', 'stray-namespace'])
+  'hook-shape', 'hook-first-arg-shape', 'stray-namespace', 'temp-self-reference'])
 
 module.exports = mk({
   id: 'C02',
